@@ -183,6 +183,21 @@ def run_job(job, rec):
                     rec.check(grad.shape == gn.shape and bool(np.all(np.abs(grad - gn) <= 1e-5 * gs + noise)), nm + "-gradient",
                               lambda: f"{nm} ({info['mean']} mean, d={d}, z={z:.3f}): opt_func_gradient {grad} != numerical gradient of opt_func {gn}", rec.context)
 
+        # history: one query array, modified in place between evaluations
+        xq = np.array(qs[0], dtype=float)
+        for acq in (ei, ucb, mv):
+            guarded(acq, xq)
+            guarded(acq.opt_func_gradient, xq)
+        xq += 0.21 * info["L"]
+        rec.count("in_place_query_updates")
+        for acq, nm in ((ei, "ei"), (ucb, "ucb"), (mv, "maxvar")):
+            a1, a2 = guarded(acq, xq), guarded(acq, xq.copy())
+            g1, g2 = guarded(acq.opt_func_gradient, xq), guarded(acq.opt_func_gradient, xq.copy())
+            okq = not any(isinstance(v, Raised) for v in (a1, a2, g1, g2)) and float(a1) == float(a2) and np.array_equal(np.asarray(g1[1]), np.asarray(g2[1])) \
+                and float(np.ravel(g1[0])[0]) == float(np.ravel(g2[0])[0])
+            rec.check(okq, "stale-after-in-place-update", lambda: f"{nm}: evaluating the same query array after modifying it in place: {a1!r} vs fresh {a2!r}", rec.context)
+        check_ei_point(rec, ei, gp, xq, "in-place")
+
         # continuity across the z = -3 switch: bisect between a point below and a point above
         below = [q for z, q in zs if z < -3.05]
         above = [q for z, q in zs if z > -2.95]
